@@ -525,15 +525,16 @@ def oracle(ctx):
     from .c16_driver import run
     t0 = time.time()
     with _quiet():
+        from . import c16_impl
+        with tempfile.TemporaryDirectory(prefix="verif-c16-") as tmp:
+            impl = c16_impl.run_all(ctx, tmp)
+    _report_impl(ctx, impl)
+    with _quiet():
         with tempfile.TemporaryDirectory(prefix="verif-c16-") as tmp:
             problems = run(_oracle_socket(ctx, tmp), timeout=600)
         problems += run(_oracle_director_names(ctx), timeout=300)
         same, o = run(_oracle_refuted_witness(ctx), timeout=120)
-        from . import c16_impl
-        with tempfile.TemporaryDirectory(prefix="verif-c16-") as tmp:
-            impl = c16_impl.run_all(ctx, tmp)
         same2, o2 = run(_oracle_badstr_witness(ctx), timeout=120)
-    _report_impl(ctx, impl)
     ctx.notes.append("second witness of the same refuted clause (a handler exception whose str() raises makes "
                      "_call_and_capture_failure raise; sentinel to the caller, siblings cancelled): "
                      + ("reproduced" if same2 else f"NOT reproduced (the code was repaired?): {o2['sent']} {o2['status']}"))
